@@ -91,18 +91,23 @@ META = {
              "exactly k, for every k, hypothesis-free (tie: op atms compares that conversion with "
              "timestamp.FromFloatSeconds(number(text)) on every `@` literal that is not exactly half a millisecond); lexString_renderQ / string_token_roundtrip "
              "- a %q body is scanned to exactly its closing quote, value back under the explicit hypothesis unquote(quote v) = v; "
-             "extra_rune_breaks_last_escape is the seeded lexer bug as a `decide` witness. `decide` witnesses show the printer "
+             "extra_rune_breaks_last_escape is the seeded lexer bug as a `decide` witness. (4) the whole lexer: Model/PromLexAll.lexAll "
+             "models the complete state machine of lex.go (blanks, comments, operators, brace/bracket modes, paren depth, the "
+             "literal scanners); lexer_steps + Lemmas/PromLexAllSteps lift every per-token theorem to one step of that machine "
+             "(right token, right successor state, rest of the text) for each token class the printer writes, and "
+             "lex_range_suffix composes them across the `[`..`]` mode. `decide` witnesses show the printer "
              "before the fix violated the property in six ways. Ties: per generated source the real ParseExpr (accept/reject, "
              "tree), the real String() (token sequence), and the real lexer on every string, number, duration and word token "
-             "(ops lexstr, lexnum, lexdur, lexword), parseDuration on every duration literal (pdur), `%ds` (durtext), `@` "
+             "(ops lexstr, lexnum, lexdur, lexword), the real lexer on the WHOLE source and the WHOLE printed text (op lexall), parseDuration on every duration literal (pdur), `%ds` (durtext), `@` "
              "seconds -> ms (atms) are replayed "
              "on the compiled models; the hypotheses tokOk (line `lex`) and wf (line `wf`) are evaluated by the driver on every "
              "real token stream / returned tree."),
     "note": ("Partial: the two library contracts strconv.Quote/strutil.Unquote and fmt.Sprint(float64)/number (ParseInt, "
              "ParseFloat) are explicit hypotheses of string_token_roundtrip / number_literal_roundtrip, discharged by the "
-             "round-trip oracle only; the lexical theorems are per token class (the lexer's treatment of blanks, operators, "
-             "brace/bracket modes over the WHOLE printed text is not modelled, so accepted_roundtrip is not yet composed into one "
-             "character-level statement); parseDuration's float rounding is modelled exactly, which agrees with the code below "
+             "round-trip oracle only; the lexical theorems are per token class and per lexer step: a character-level model of "
+             "the printer's spacing and the induction chaining the steps over a whole printed expression (lexAll(printText e) = "
+             "tokens of printExpr e) are NOT proved, so accepted_roundtrip is not yet one character-level statement - on every "
+             "generated case that composition is checked by the correspondence (print + lexall); parseDuration's float rounding is modelled exactly, which agrees with the code below "
              "2^59 ns (18 years) - `100y500ms` rounds down in the code; `@` timestamps rendered exactly for |ms| < 2^52; the order "
              "in which matchers are printed is not modelled; 'never panics' is the direct oracle only. Trusted: Lean kernel; the "
              "reading of 'equivalent tree'; the correspondence on generated inputs (quick 6000, thorough 150000 sources + corpus). "
